@@ -469,6 +469,29 @@ func (g *rgen) wild(maxLen int) string {
 	return string(b)
 }
 
+// unquotedWord: a word of unquoted text made of bytes that are none of space, tab, CR, newline, quote,
+// '$', '#': it must come back as exactly one identical argument.  Biased to bytes that a rune- or
+// locale-based notion of "white space" would wrongly split at: \v, \f, 0x1c-0x1f, 0x85, 0xA0 (also as
+// the second byte of à / Å / NBSP / NEL), U+2028, U+3000, CJK, arbitrary high and control bytes.
+var wordPieces = []string{"\v", "\f", "\x1c", "\x1d", "\x1e", "\x1f", "\x85", "\xa0", "à", "Å", "voilà", "déjà", "\u00a0", "\u0085", "\u2028", "\u2029", "\u3000", "\u1680", "\u2003", "漢字", "日本", "\xc3", "\xe2\x80", "\x7f", "\x01", "\x08", "\x1b", "a", "Z", "0", "_", "-", "=", "{", "}", "\\", "\"", "`", "*", "[", "~"}
+
+func (g *rgen) unquotedWord() string {
+	var sb strings.Builder
+	for n := 1 + g.r.Intn(4); n > 0; n-- {
+		if g.r.Intn(5) == 0 {
+			c := byte(1 + g.r.Intn(255))
+			switch c {
+			case ' ', '\t', '\r', '\n', '\'', '$', '#':
+				c = 0x85
+			}
+			sb.WriteByte(c)
+		} else {
+			sb.WriteString(g.pick(wordPieces))
+		}
+	}
+	return sb.String()
+}
+
 func sq(w string) string { return "'" + strings.ReplaceAll(w, "'", "''") + "'" }
 
 func (g *rgen) varref() string {
@@ -499,6 +522,8 @@ func (g *rgen) token() string {
 			sb.WriteString(g.varref())
 		case k < 18:
 			sb.WriteString(g.pick(oddPieces))
+		case k == 18 && g.r.Intn(2) == 0:
+			sb.WriteString(g.unquotedWord())
 		case k == 18:
 			// unquoted wild bytes without blanks/quotes/#: high bytes, controls, regexp metas
 			w := g.wild(3)
@@ -632,6 +657,14 @@ func oracleScript(r *rand.Rand, n int, nLines, nExec int) *script {
 		}
 		return m
 	}
+	// fixed corpus: words with bytes that only a wrong notion of white space would split at
+	for _, ws := range [][]string{
+		{"voilà", "déjà", "vu"}, {"Å", "à"}, {"a\vb", "c\fd"}, {"x\x85y", "z\xa0w"}, {"\x1c\x1d\x1e\x1f"},
+		{"a\u00a0b", "c\u0085d", "e\u2028f", "g\u3000h"}, {"漢字", "日本"}, {"\x85", "\xa0", "\v", "\f"},
+	} {
+		id := s.nextID()
+		s.add("probe "+id+" "+strings.Join(ws, g.pick(seps)), lineMeta{kind: "probe", id: id, oracle: "hash", wantArgs: ws})
+	}
 	execAt := map[int]bool{}
 	for k := 0; k < nExec; k++ {
 		execAt[r.Intn(nLines)] = true
@@ -668,7 +701,11 @@ func oracleScript(r *rand.Rand, n int, nLines, nExec int) *script {
 			var ws []string
 			var sb strings.Builder
 			for m := 1 + r.Intn(3); m > 0; m-- {
-				if r.Intn(2) == 0 {
+				if k := r.Intn(5); k < 2 {
+					w := g.unquotedWord()
+					ws = append(ws, w)
+					sb.WriteString(g.pick(seps) + w)
+				} else if k == 2 {
 					w := g.plain()
 					ws = append(ws, w)
 					sb.WriteString(g.pick(seps) + w)
